@@ -17,15 +17,12 @@ from tensordict import TensorDict
 
 from .base import Adapter, with_ids
 
-DURS2 = [(1, 0), (0, 1), (2, 0), (0, 2), (1, 1), (1, 2), (2, 1), (2, 2)]      # (machine 1, machine 2)
-DURS2_MORE = DURS2 + [(3, 0), (0, 3), (3, 1), (1, 3), (2, 3), (3, 2)]
-SINGLE2 = [(1, 0), (0, 1), (2, 0), (0, 2), (3, 0), (0, 3)]                    # JSSP: one eligible machine
-
 
 def _inst(J, M, P, nops, cols, wait, jssp):
     """cols: one tuple of M processing times per real operation (flat numbering)"""
     n = sum(nops)
-    assert len(cols) == n and n <= P and len(nops) == J
+    assert len(cols) == n and n <= P and len(nops) == J and all(len(c) == M for c in cols)
+    assert all(any(d > 0 for d in c) for c in cols)
     pt = [[cols[o][m] if o < n else 0 for o in range(P)] for m in range(M)]
     return {"N": n, "J": J, "M": M, "P": P, "nops": list(nops), "pt": pt,
             "wait": bool(wait), "jssp": bool(jssp), "grid": 1}
@@ -38,8 +35,7 @@ def _columns(rnd, n, pool, how_many, fixed=()):
         if len(c) == n and tuple(c) not in seen:
             seen.add(tuple(c))
             out.append(tuple(c))
-    total = len(pool) ** n
-    if total <= how_many:
+    if len(pool) ** n <= how_many:
         for c in itertools.product(pool, repeat=n):
             if c not in seen:
                 seen.add(c)
@@ -55,6 +51,63 @@ def _columns(rnd, n, pool, how_many, fixed=()):
     return out
 
 
+def _unit(M, m, d):
+    return tuple(d if k == m % M else 0 for k in range(M))
+
+
+class _StepTimeout(Exception):
+    pass
+
+
+class _Guard:
+    """Proxy around the real environment that turns a CRASH or a HANG inside env.step (the
+    scheduling envs assert internally, e.g. `available_time ... isinf`, and loop `while
+    step_complete.any()`) into an observable dead end of exactly the rows that cause it:
+    those rows come back unchanged, not done, with an all-False action mask, so the drivers
+    record the episode as a dead end (monitor M_C02c -> C02) instead of aborting the run.
+    The batch is bisected; sub-batches that step cleanly are taken as they are."""
+
+    def __init__(self, env):
+        object.__setattr__(self, "_env", env)
+        object.__setattr__(self, "crashed", [])
+
+    def __getattr__(self, k):
+        return getattr(self._env, k)
+
+    def _timed(self, td, secs):
+        import signal
+
+        def onalarm(signum, frame):
+            raise _StepTimeout()
+
+        try:
+            old = signal.signal(signal.SIGALRM, onalarm)
+        except ValueError:           # not in the main thread: no hang protection
+            return self._env.step(td)["next"]
+        signal.setitimer(signal.ITIMER_REAL, secs)
+        try:
+            return self._env.step(td)["next"]
+        finally:
+            signal.setitimer(signal.ITIMER_REAL, 0)
+            signal.signal(signal.SIGALRM, old)
+
+    def _rec(self, td):
+        n = td.shape[0]
+        try:
+            return self._timed(td.clone(), 60 if n > 64 else 5)
+        except Exception as e:  # noqa: BLE001  (AssertionError, IndexError, _StepTimeout ...)
+            if n == 1:
+                self.crashed.append(type(e).__name__ + ":" + str(e)[:80])
+                dead = td.clone()
+                dead.set("action_mask", torch.zeros_like(dead["action_mask"]))
+                return dead
+            h = n // 2
+            return torch.cat([self._rec(td[:h]), self._rec(td[h:])], 0)
+
+    def step(self, td):
+        return {"next": self._rec(td)}
+
+
 class FJSP(Adapter):
     name = "fjsp"
     module = "FJSP"
@@ -66,47 +119,73 @@ class FJSP(Adapter):
     monitor_props = {"Final": "C07", "Step": "C07"}
 
     # ---- instances -------------------------------------------------------
-    def _pool(self, tier):
-        return DURS2 if tier == "quick" else DURS2_MORE
+    def _pool(self, M, tier):
+        top = 2 if (tier == "quick" or M > 2) else 3
+        return [c for c in itertools.product(range(top + 1), repeat=M) if any(c)]
 
-    def _hand(self, n):
-        """boundary patterns: everything on one machine (clock must move by itself), equal
-        completion times on both machines, an operation that ends exactly when another
-        machine frees, fully flexible with different speeds"""
-        if self.jssp:
+    def _hand(self, n, M):
+        """boundary patterns, cheapest (fewest episodes) first: everything on one machine (the
+        clock has to move by itself), machines alternate, one rigid + one flexible operation,
+        mixed, fully flexible with different / equal speeds (equal completion times, an
+        operation ending exactly when another machine frees)"""
+        if M == 2:
             base = [[(1, 0)] * n, [(0, 2)] * n,
                     [((1, 0), (0, 1))[o % 2] for o in range(n)],
-                    [((2, 0), (0, 1))[o % 2] for o in range(n)],
-                    [((0, 1), (0, 1), (2, 0))[o % 3] for o in range(n)]]
-        else:
-            base = [[(1, 1)] * n, [(2, 2)] * n, [(1, 0)] * n, [(0, 2)] * n,
-                    [((1, 2), (2, 1))[o % 2] for o in range(n)],
                     [((2, 0), (1, 1))[o % 2] for o in range(n)],
-                    [((1, 0), (0, 1))[o % 2] for o in range(n)],
-                    [((2, 1), (0, 1), (1, 2))[o % 3] for o in range(n)]]
+                    [((2, 1), (0, 1), (1, 2))[o % 3] for o in range(n)],
+                    [((1, 2), (2, 1))[o % 2] for o in range(n)],
+                    [(1, 1)] * n, [(2, 2)] * n]
+        else:
+            base = [[_unit(M, 0, 1)] * n,
+                    [_unit(M, o, 1) for o in range(n)],
+                    [((2, 0, 1), (0, 1, 1), (1, 2, 0))[o % 3] for o in range(n)],
+                    [((1, 2, 1), (2, 1, 2))[o % 2] for o in range(n)],
+                    [(1,) * M] * n]
         return [tuple(b) for b in base]
 
-    def _shapes(self, tier):
-        """(J, M, P, [ops per job ...], patterns per shape)"""
+    def _cells(self, tier):
+        """(J, M, P, ops per job, wait, #hand patterns (k >= 0: the k cheapest; None: all;
+        k < 0: the -k most flexible), #sampled patterns).  The number of episodes of one
+        instance grows from ~5 (2 operations) to > 20 000 (6 flexible operations with the
+        wait action), so the budget is set per cell."""
+        cells = []
         if tier == "quick":
-            return [(2, 2, 4, [(1, 1), (2, 1), (1, 2), (2, 2)], 6),
-                    (3, 2, 6, [(1, 1, 1), (2, 1, 1)], 3)]
-        return [(2, 2, 4, [(1, 1), (2, 1), (1, 2), (2, 2)], 40),
-                (3, 2, 6, [(1, 1, 1), (2, 1, 1), (1, 1, 2), (1, 2, 1), (2, 2, 1), (2, 2, 2)], 6),
-                (2, 2, 6, [(3, 3), (3, 1), (1, 2)], 6)]
+            for nops in [(1, 1), (2, 1), (1, 2), (2, 2)]:
+                for wait in (False, True):
+                    cells.append((2, 2, 4, nops, wait, -5, 1))
+            for wait in (False, True):
+                cells.append((3, 2, 6, (1, 1, 1), wait, -3, 0))
+                cells.append((3, 2, 6, (2, 1, 1), wait, 4, 0))
+                cells.append((2, 3, 4, (2, 1), wait, -2, 0))
+                cells.append((2, 3, 4, (1, 1), wait, -2, 0))
+            return cells
+        for nops in [(1, 1), (2, 1), (1, 2), (2, 2)]:
+            for wait in (False, True):
+                cells.append((2, 2, 4, nops, wait, None, 24))
+        for nops in [(1, 1, 1), (2, 1, 1), (1, 1, 2), (1, 2, 1)]:
+            for wait in (False, True):
+                cells.append((3, 2, 6, nops, wait, None, 6))
+        for nops in [(3, 1), (1, 2)]:
+            for wait in (False, True):
+                cells.append((2, 2, 6, nops, wait, None, 4))
+        for nops in [(1, 1), (2, 1), (1, 2)]:
+            for wait in (False, True):
+                cells.append((2, 3, 4, nops, wait, None, 4))
+        cells += [(2, 3, 4, (2, 2), False, None, 4), (2, 3, 4, (2, 2), True, 3, 2),
+                  (3, 2, 6, (2, 2, 1), False, None, 4), (3, 2, 6, (2, 2, 1), True, 6, 0),
+                  (2, 2, 6, (3, 3), False, None, 4), (2, 2, 6, (3, 3), True, 6, 0),
+                  (3, 2, 6, (2, 2, 2), False, None, 3), (3, 2, 6, (2, 2, 2), True, 4, 0)]
+        return cells
 
     def family(self, tier, seed=0):
         rnd = random.Random(1000 + seed)
         insts = []
-        for (J, M, P, shapes, k) in self._shapes(tier):
-            for nops in shapes:
-                n = sum(nops)
-                kk = k if n <= 4 else max(2, k // 2) if n <= 5 else max(2, k // 3)
-                pool = (SINGLE2 if tier != "quick" else SINGLE2[:4]) if self.jssp else self._pool(tier)
-                for cols in _columns(rnd, n, pool, kk + len(self._hand(n)) if tier != "quick" else kk,
-                                     fixed=self._hand(n)):
-                    for wait in (False, True):
-                        insts.append(_inst(J, M, P, nops, cols, wait, self.jssp))
+        for (J, M, P, nops, wait, nh, nr) in self._cells(tier):
+            n = sum(nops)
+            hand = self._hand(n, M)
+            hand = hand if nh is None else hand[:nh] if nh >= 0 else hand[nh:]
+            for cols in _columns(rnd, n, self._pool(M, tier), len(hand) + nr, fixed=hand):
+                insts.append(_inst(J, M, P, nops, cols, wait, self.jssp))
         return with_ids(insts)
 
     def group_key(self, inst):
@@ -122,15 +201,15 @@ class FJSP(Adapter):
         return 0
 
     # ---- real environment --------------------------------------------------
+    def _params(self, inst):
+        return {"num_jobs": inst["J"], "num_machines": inst["M"], "min_ops_per_job": 1,
+                "max_ops_per_job": -(-inst["P"] // inst["J"])}
+
     def make_env(self, inst):
         from rl4co.envs.scheduling.fjsp.env import FJSPEnv
 
-        env = FJSPEnv(generator_params={"num_jobs": inst["J"], "num_machines": inst["M"],
-                                        "min_ops_per_job": 1,
-                                        "max_ops_per_job": -(-inst["P"] // inst["J"])},
-                      mask_no_ops=not inst["wait"])
-        self._env = env
-        return env
+        self._env = FJSPEnv(generator_params=self._params(inst), mask_no_ops=not inst["wait"])
+        return _Guard(self._env)
 
     def to_td(self, insts):
         so, eo, pm = [], [], []
@@ -171,7 +250,7 @@ class FJSP(Adapter):
     def final(self, td, r, inst):
         fin = self._schedule(td, r)
         rew = self.get_reward(self._env, td[r:r + 1], None)
-        fin["makespan"] = int(round(-float(rew[0])))
+        fin["makespan"] = int(round(-float(rew[0])))       # what the environment reports
         return fin
 
     def get_reward(self, env, td, actions):
@@ -188,17 +267,54 @@ class FJSP(Adapter):
 
 
 class JSSP(FJSP):
+    """JSSPEnv: every operation has exactly one eligible machine, an action names a job"""
     name = "jssp"
     module = "JSSP"
     jssp = True
 
+    def _pool(self, M, tier):
+        top = 2 if tier == "quick" else 3
+        return [_unit(M, m, d) for m in range(M) for d in range(1, top + 1)]
+
+    def _hand(self, n, M):
+        base = [[_unit(M, 0, 1)] * n, [_unit(M, M - 1, 2)] * n,
+                [_unit(M, o, 1) for o in range(n)],
+                [_unit(M, o, (2, 1)[o % 2]) for o in range(n)],
+                [_unit(M, (1, 1, 0)[o % 3], (1, 1, 2)[o % 3]) for o in range(n)],
+                [_unit(M, (1, 0, 0)[o % 3], (2, 1, 1)[o % 3]) for o in range(n)],
+                [_unit(M, n - o, (1, 2, 3)[o % 3]) for o in range(n)]]
+        return [tuple(b) for b in base]
+
+    def _cells(self, tier):
+        cells = []
+        if tier == "quick":
+            for nops in [(1, 1), (2, 1), (1, 2), (2, 2)]:
+                for wait in (False, True):
+                    cells.append((2, 2, 4, nops, wait, None, 3))
+            for wait in (False, True):
+                cells.append((3, 2, 6, (1, 1, 1), wait, None, 0))
+                cells.append((3, 2, 6, (2, 1, 2), wait, None, 0))
+                cells.append((2, 3, 6, (3, 3), wait, -3, 0))
+                cells.append((2, 3, 6, (2, 1), wait, -3, 0))
+            return cells
+        for nops in [(1, 1), (2, 1), (1, 2), (2, 2)]:
+            for wait in (False, True):
+                cells.append((2, 2, 4, nops, wait, None, 40))
+        for nops in [(1, 1, 1), (2, 1, 1), (1, 1, 2), (1, 2, 1), (2, 2, 1), (2, 2, 2)]:
+            for wait in (False, True):
+                cells.append((3, 2, 6, nops, wait, None, 12 if sum(nops) < 6 else 6))
+        for nops in [(3, 3), (3, 1), (1, 2), (2, 3)]:
+            for wait in (False, True):
+                cells.append((2, 3, 6, nops, wait, None, 12))
+        for nops in [(2, 2, 2), (1, 2, 2), (1, 1, 1), (3, 1, 2)]:
+            for wait in (False, True):
+                cells.append((3, 3, 6, nops, wait, None, 8 if sum(nops) < 6 else 4))
+        return cells
+
     def make_env(self, inst):
         from rl4co.envs.scheduling.jssp.env import JSSPEnv
 
-        env = JSSPEnv(generator_params={"num_jobs": inst["J"], "num_machines": inst["M"],
-                                        "min_ops_per_job": 1,
-                                        "max_ops_per_job": -(-inst["P"] // inst["J"]),
-                                        "one2one_ma_map": False},
-                      mask_no_ops=not inst["wait"])
-        self._env = env
-        return env
+        p = self._params(inst)
+        p["one2one_ma_map"] = False
+        self._env = JSSPEnv(generator_params=p, mask_no_ops=not inst["wait"])
+        return _Guard(self._env)
